@@ -604,7 +604,7 @@ pub fn undecodable(ch: &mut Choices) -> (Vec<u8>, &'static str) {
         0 => (vec![0x00, 0x00], "reserved packet type 0"),
         1 => (vec![0x30, 0xff, 0xff, 0xff, 0xff, 0x01], "remaining length with a fifth continuation byte"),
         2 => (vec![0x62, 0x01, 0x00], "PUBREL with a one-byte body"),
-        _ => (vec![0x82, 0x02, 0x00, 0x01], "SUBSCRIBE without a filter"),
+        _ => (vec![0x40, 0x01, 0x00], "PUBACK with a one-byte body"),
     }
 }
 
